@@ -50,6 +50,13 @@ pub fn run(a: &Args) {
         println!("{}", case(&G { names: names.clone(), start: 0, prods: vec![(0, vec![Sy::N(1)]), (1, vec![Sy::T(5), Sy::N(0)]), (1, vec![Sy::T(5)])] }));
         println!("{}", case(&G { names: names.clone(), start: 0, prods: vec![(0, vec![Sy::N(1)]), (1, vec![Sy::T(5), Sy::N(0), Sy::T(6)]), (1, vec![Sy::T(7)])] }));
         println!("{}", case_annotated(&G { names, start: 0, prods: vec![(0, vec![Sy::N(1)]), (1, vec![Sy::T(5), Sy::N(0), Sy::T(6)]), (1, vec![Sy::T(7)])] }, u64::MAX));
+        // a recursive start symbol whose number rolls over into an existing sibling name (E9 -> E10)
+        for (a0, b0) in [("E9", "E10"), ("X99", "X100"), ("S9", "S10")] {
+            let names = vec![a0.to_string(), b0.to_string()];
+            println!("{}", case(&G { names, start: 0, prods: vec![(0, vec![Sy::N(1)]), (1, vec![Sy::T(5), Sy::N(0)]), (1, vec![Sy::T(6)])] }));
+        }
+        let names: Vec<String> = (0..12).map(|i| if i == 0 { "N".to_string() } else { format!("N{}", i - 1) }).collect();
+        println!("{}", case(&G { names, start: 0, prods: (0..12).map(|i| if i == 0 { (0, vec![Sy::T(5), Sy::N(0)]) } else { (i, vec![Sy::T(6)]) }).chain(std::iter::once((0, (1..12).map(Sy::N).collect()))).collect() }));
         // a start symbol named like its own replacement candidates
         let names = vec!["S".to_string(), "S0".to_string(), "S1".to_string()];
         println!("{}", case(&G { names, start: 0, prods: vec![(0, vec![Sy::N(1)]), (0, vec![Sy::N(2)]), (1, vec![Sy::T(5)]), (2, vec![Sy::T(6), Sy::N(0)])] }));
